@@ -3,10 +3,21 @@
 from __future__ import annotations
 
 from vlib import refcrypto_ds as ref
-from vlib.ds_harness import SEQ_MAX, Node, auth_only_frame, group_payload, observing_management, seq_of
+from vlib.ds_harness import (
+    SEQ_MAX,
+    Node,
+    ScriptedInterface,
+    apci_of,
+    auth_only_frame,
+    group_payload,
+    observing_management,
+    seq_of,
+)
 from vlib.vloop import new_loop
 from xknx.exceptions import DataSecureError
-from xknx.telegram import GroupAddress, Telegram
+from xknx.dpt import DPTArray, DPTBinary
+from xknx.telegram import GroupAddress, Telegram, TelegramDirection
+from xknx.telegram.apci import GroupValueRead, GroupValueResponse, GroupValueWrite
 
 LEVEL = "exploration"
 TECHNIQUE = (
@@ -21,7 +32,7 @@ LEVEL_TEXT = (
 LEVEL_NOTE = (
     "Model, from the statement: delivered iff sender known, MAC valid and counter > last delivered counter of that sender; only a "
     "delivery advances it ('a failed frame does not advance the counter' is observed behaviourally: a later genuine frame below the "
-    "forged counter must still be delivered). Before the first delivery of a sender the statement names no reference value: frames "
+    "forged counter must still be delivered). Outgoing counters are read from the octets of every frame handed to the interface, whatever the interface then reports (a CommunicationError after transmission does not take the frame back). Before the first delivery of a sender the statement names no reference value: frames "
     "at or below the table's initial value are recorded, not judged. Genuine frames are produced by xknx's own sender "
     "(DataSecure.outgoing_cemi / SecureData.init_from_plain_apdu), forged ones by bit damage or a wrong key."
 )
@@ -282,16 +293,139 @@ def _outgoing(ctx, loop, spec):
         ctx.sample({"outgoing_start": start, "sent": seen, "errors_after": errors, "path": path})
 
 
+# ---------------------------------------------------------------------------
+# outgoing direction, observed at the wire (every frame handed to the interface)
+
+OUTCOMES = ("ok", "ok", "ok", "slow", "fail_after", "fail_before", "noconf")
+
+
+def _wire_spec(rng, near_top):
+    ngas = rng.choice((1, 2, 3))
+    gas = rng.sample(range(1, 0x10000), ngas + 1)
+    nops = rng.randrange(6, 16)
+    ops = []
+    for _ in range(nops):
+        ops.append({"path": rng.choice(("direct", "direct", "queue", "queue", "concurrent")),
+                    "svc": rng.choice(("write", "write", "response", "read")),
+                    "ga": rng.randrange(ngas + 1) if rng.random() < 0.15 else rng.randrange(ngas),  # index ngas = unkeyed
+                    "val": rng.randrange(256), "long": rng.random() < 0.3})
+    r = rng.random()
+    if near_top:
+        start = SEQ_MAX - rng.randrange(0, 8)
+    else:
+        start = rng.choice((1, 1000, 65535, (1 << 32) - 2, rng.randrange(1, SEQ_MAX - 1000)))
+    if r < 0.15:
+        outcomes = ["ok"]
+    else:
+        outcomes = [rng.choice(OUTCOMES) for _ in range(nops * 3)]
+    return {"key": rng.randbytes(16).hex(), "gas": gas, "nkeyed": ngas, "sa": rng.randrange(2, 0xFFFF), "start": start,
+            "ops": ops, "outcomes": outcomes}
+
+
+def _telegram(op, gas):
+    ga = GroupAddress(gas[op["ga"]])
+    value = DPTArray((op["val"], 1, 2, 3, 4, 5, 6, 7, 8, 9, 10, 11, 12, 13)) if op["long"] else DPTBinary(op["val"] & 1)
+    payload = {"write": GroupValueWrite(value), "response": GroupValueResponse(value), "read": GroupValueRead()}[op["svc"]]
+    return Telegram(destination_address=ga, payload=payload, direction=TelegramDirection.OUTGOING)
+
+
+async def _wire_scenario(spec, log):
+    import asyncio
+
+    gas = spec["gas"]
+    keys = {g: bytes.fromhex(spec["key"]) for g in gas[: spec["nkeyed"]]}
+    node = Node(keys, {}, own_address=spec["sa"], last_seq_sending=spec["start"])
+    iface = ScriptedInterface(node.xknx, spec["outcomes"])
+    node.use_interface(iface)
+    xknx = node.xknx
+    await xknx.telegram_queue.start()
+    try:
+        for i, op in enumerate(spec["ops"]):
+            keyed = op["ga"] < spec["nkeyed"]
+            before = len(iface.wire)
+            if op["path"] == "queue":
+                await xknx.telegrams.put(_telegram(op, gas))
+                await xknx.telegrams.join()
+                log.append((i, "queue", keyed, None, before, len(iface.wire)))
+                continue
+            tels = [_telegram(op, gas)]
+            if op["path"] == "concurrent":
+                tels.append(_telegram(dict(op, svc="read", ga=0), gas))
+            res = await asyncio.gather(*(xknx.cemi_handler.send_telegram(t) for t in tels), return_exceptions=True)
+            for t, r in zip(tels, res):
+                k = t.destination_address.raw in keys
+                log.append((i, op["path"], k, None if r is None else type(r).__name__, before, len(iface.wire)))
+    finally:
+        await xknx.telegram_queue.stop()
+    return iface.wire
+
+
+def _outgoing_wire(ctx, loop, spec):
+    log = []
+    ctx.ev()
+    ctx.count("wire_runs")
+    if not 0 < spec["start"] <= SEQ_MAX:
+        return
+    try:
+        wire = loop.run(_wire_scenario(spec, log), max_vtime=10_000)
+    except Exception as exc:  # noqa: BLE001 - Deadlock / LoopBudget / harness trouble: never a verdict
+        ctx.inconclusive(f"outgoing wire scenario did not finish: {type(exc).__name__}")
+        return
+    keyed = set(spec["gas"][: spec["nkeyed"]])
+    seqs = []  # (counter, outcome of that hand-off, raw)
+    for raw, outcome in wire:
+        ctx.count("wire_frames")
+        ctx.count(f"wire_outcome_{outcome}")
+        dst = int.from_bytes(raw[6:8], "big")
+        if apci_of(raw) != 0x3F1:
+            ctx.count("wire_plain_frames")  # plain to a keyed GA is C18's business
+            continue
+        ctx.count("wire_secured_frames")
+        ctx.count("wire_secured_to_keyed" if dst in keyed else "wire_secured_to_unkeyed")
+        seqs.append((seq_of(raw), outcome, raw))
+    wit = {"spec": spec, "wire_counters": [n for n, _, _ in seqs], "wire_outcomes": [o for _, o, _ in seqs], "calls": log[:40]}
+    for (a, oa, _), (b, ob, rawb) in zip(seqs, seqs[1:]):
+        if not b > a:
+            how = "reused" if b == a else "decreasing"
+            ctx.violation(f"outgoing-counter-{how}-at-the-wire-after-{oa}-hand-off", dict(wit, first=a, second=b, frame=rawb),
+                          f"two different secured frames left with counters {a} then {b} (the first hand-off ended '{oa}'); wire: {[n for n, _, _ in seqs][:12]}")
+            return
+    if seqs and seqs[0][0] != spec["start"]:
+        ctx.count("first_wire_counter_differs_from_start")  # legitimate after a fail_before hand-off: recorded only
+    # exhaustion: a direct send to a keyed GA made after the last counter left must fail with DataSecureError, nothing may follow
+    errors = [e for e in log if e[3] == "DataSecureError"]
+    ctx.count("wire_exhaustion_errors", len(errors))
+    if seqs and seqs[-1][0] == SEQ_MAX:
+        ctx.count("wire_runs_reaching_last_counter")
+        last_index = max(i for i, (raw, _) in enumerate(wire) if apci_of(raw) == 0x3F1)
+        for e in log:
+            if e[2] and e[1] != "queue" and e[4] > last_index and e[3] != "DataSecureError":
+                ctx.violation("send-after-last-counter-does-not-raise-DataSecureError", dict(wit, call=list(e)),
+                              f"send_telegram to a keyed GA after counter 2^48-1 left ended with {e[3]!r}")
+                return
+    for e in log:
+        if e[3] in ("OverflowError", "ValueError", "TypeError", "KeyError", "AttributeError"):
+            ctx.violation(f"outgoing-send-raises-{e[3]}", dict(wit, call=list(e)), f"send_telegram raised {e[3]}")
+            return
+    ctx.distinct(("wire", "".join(o[0] + ("=" if o == "fail_after" else "") for _, o, _ in seqs), bool(errors)))
+    if len(ctx.samples) < 7 and any(o == "fail_after" for _, o, _ in seqs):
+        ctx.sample({"wire_counters": [n for n, _, _ in seqs], "hand_off_outcomes": [o for _, o, _ in seqs], "start": spec["start"]})
+
+
 def run(ctx):
     rng = ctx.rng
     ctx.rule = (
         "receive: history = list of (sender, GA, counter, genuine|replay|reorder|forged(badmac/badbody/wrongkey/lifted counter)|arbitrary), "
         "distinct = string of (kind, delivered?) per event; outgoing: start = 2^48 - k, k = 0..6, k + 4 sends over 1..2 GAs by "
-        "outgoing_cemi or send_telegram, plus random starts"
+        "outgoing_cemi or send_telegram, plus random starts; wire runs: 6..15 sends (write/response/read, 1..3 keyed GAs + one unkeyed, "
+        "direct / TelegramQueue / two concurrent send_telegram) against an interface with a scripted outcome per hand-off "
+        "{ok, slow, CommunicationError after transmission, CommunicationError before, no confirmation}; the counters of ALL secured "
+        "frames that reached the interface must be strictly increasing"
     )
     ctx.require("histories", "events_genuine", "events_replay", "events_reorder", "events_forged", "events_arbitrary", "delivered",
                 "forged_rejected", "stale_rejected", "unknown_sender_rejected", "outgoing_runs", "outgoing_frames", "exhaustion_errors",
-                "outgoing_frames_accepted_by_receiver")
+                "outgoing_frames_accepted_by_receiver", "wire_runs", "wire_secured_frames", "wire_outcome_ok", "wire_outcome_slow",
+                "wire_outcome_fail_after", "wire_outcome_noconf", "wire_exhaustion_errors", "wire_runs_reaching_last_counter")
     loop = new_loop()
     try:
         with observing_management():
@@ -315,6 +449,10 @@ def run(ctx):
                             "start": rng.choice((1, 255, 256, 65535, (1 << 32) - 1, (1 << 40) - 2, rng.randrange(1, SEQ_MAX - 10)))}
                     if ctx.mine(j):
                         _outgoing(ctx, loop, spec)
+            for i in range(ctx.scale(400, 20000)):
+                spec = _wire_spec(rng, near_top=i % 4 == 3)
+                if ctx.mine(i):
+                    _outgoing_wire(ctx, loop, spec)
     finally:
         loop.finish()
 
@@ -325,6 +463,8 @@ def replay(ctx, witness):
         with observing_management():
             if "history" in witness:
                 _run_history(ctx, witness["history"])
+            elif "outcomes" in witness["spec"]:
+                _outgoing_wire(ctx, loop, witness["spec"])
             else:
                 _outgoing(ctx, loop, witness["spec"])
     finally:
